@@ -1,5 +1,7 @@
 import GitBugModel.Model.Conc
 import GitBugModel.Gen.Locks
+import GitBugModel.Gen.LockNest
+import GitBugModel.Lemmas.RWLock
 /-!
 # C18 — concurrent use of one cache loses no acknowledged edit
 -/
@@ -173,6 +175,49 @@ theorem resolve_single_instance (n : Nat) (sched : List Nat) (i j a b : Nat)
 theorem resolve_double_load_pinned :
     handed (rrun false (rinit 2) [0, 1, 0, 1, 0, 1]) = [0, 1] ∧
     handed (rrun true (rinit 2) [0, 1, 0, 1, 0, 1]) = [0, 0] := by decide
+
+/-! ## no call deadlocks: lock order -/
+
+open GitBugModel.RWLock in
+/-- `deadlock_free`: for any number of goroutines and read-write mutexes (Go's semantics: not
+re-entrant, a waiting writer stops new readers), if every goroutine that waits for a mutex
+holds only smaller ones (SUB < ENT < SNAP in the cache) and everybody releases what it took
+before returning, then whenever some goroutine has not returned, some goroutine can step. -/
+theorem deadlock_free (c : Conf) (wf : WF c) (h : ∃ t ∈ c.tids, c.st t ≠ .done) :
+    deadlocked c = false := by
+  obtain ⟨t, ht, he⟩ := ordered_no_deadlock c wf h
+  unfold deadlocked
+  have : (c.tids.all fun t => !enabled c t) = false := by
+    rw [Bool.eq_false_iff]
+    intro hall
+    have := List.all_eq_true.mp hall t ht
+    simp [he] at this
+  simp [this]
+
+open GitBugModel.RWLock in
+/-- the configuration `RepoCacheBug.Query(nil)` could reach on the pinned tree: goroutine 0 holds
+the sub-cache mutex for reading and asks for it again (through `AllIds`), goroutine 1 has called
+`Lock` in between -/
+def nestedRLock : Conf where
+  mx := fun m => if m = 0 then { readers := [0], writer := none, pending := [1] } else {}
+  st := fun t => if t = 0 then .waitR 0 else if t = 1 then .waitW 0 else .done
+  tids := [0, 1]
+
+/-- `nested_rlock_deadlocks`: taking a read lock one already holds, with a writer arriving in
+between, blocks both for ever — the lock-order hypothesis of `deadlock_free` (which excludes
+asking for a mutex one holds) is necessary.  Kernel-checked witness; the real schedule was found
+by the goroutine harness and repaired in /repo. -/
+theorem nested_rlock_deadlocks : GitBugModel.RWLock.deadlocked nestedRLock = true := by decide
+
+/-- regenerated: no method of the cache calls, while it holds a mutex of its receiver, a method
+of that receiver that takes the same mutex; nothing asks for the sub-cache mutex while holding an
+entity's mutex, nor for either while holding a snapshot mutex; the scan saw the lock regions -/
+theorem gen_lock_order :
+    GitBugModel.Gen.LockNest.nestedSame = [] ∧ GitBugModel.Gen.LockNest.againstOrder = [] ∧
+    GitBugModel.Gen.LockNest.scanned.1 = 7 ∧ GitBugModel.Gen.LockNest.scanned.2.1 ≥ 30 ∧
+    GitBugModel.Gen.LockNest.acquiring.contains "SUB:AllIds" = true ∧
+    GitBugModel.Gen.LockNest.acquiring.contains "ENT:Commit" = true := by
+  decide
 
 /-! ## regenerated obligations: the locks found in the source now -/
 
